@@ -7,6 +7,7 @@ CONSTANTS
   MaxJ = 0
   Strict = TRUE
   JumboInside = TRUE
+  ExportUnspecLen = 4
   Variant = "code"
 POSTCONDITION Report
 CHECK_DEADLOCK FALSE
